@@ -68,7 +68,7 @@ fn main() {
         let before = bad_lines;
         if line.starts_with("\"{") {
             // a TLA+ string literal holding JSON: unescape, then parse
-            match serde_json::from_str::<String>(&line).ok().and_then(|s| serde_json::from_str::<serde_json::Value>(&s).ok()) {
+            match serde_json::from_str::<String>(&line).ok().and_then(|s| coset_verif_harness::json_deep(&s)) {
                 Some(v) => run_vector(&mut ctx, &v),
                 None => bad_lines += 1,
             }
